@@ -34,6 +34,13 @@ Theorem C14_never_longer :
 Proof. exact rewrite_never_longer. Qed.
 Print Assumptions C14_never_longer.
 
+(* every token of the result is a token of the input, or was built by a plugin and then carries no A/B split lists, no
+   word structure and no synonym group ids (field [extra]): merged tokens are not split again in modes A / B *)
+Theorem C14_built_tokens_have_no_splits :
+  forall pls p q m, run_plugins pls p = Some (Ok q) -> In m q -> In m p \/ extra m = 0%N.
+Proof. exact rewrite_built_nodes_have_no_splits. Qed.
+Print Assumptions C14_built_tokens_have_no_splits.
+
 (* each loop separately, from any intermediate state and for any fuel *)
 Theorem C14_katakana_loop_grouping :
   forall ml op (A : N -> Prop), A op ->
